@@ -66,8 +66,16 @@ func ruleRegCount(c *Ctx) {
 		c.und(R, "patchCode:selector", p.pos(pc.Pos()), "the opcode switch of patchCode was not found")
 		return
 	}
+	// the high-water mark is the loop-carried value that ends up (plus one) in NumUsedRegisters
+	nur := p.Field("lua", "FunctionProto", "NumUsedRegisters")
+	var stored ssa.Value
+	allInstrs(pc, func(in ssa.Instruction) {
+		if st, ok := isFieldStore(in, nur); ok {
+			stored = st.Val
+		}
+	})
 	for _, in := range loopHeaderOf(g, sel.Block()).Instrs {
-		if ph, ok := in.(*ssa.Phi); ok && ph.Comment == "maxreg" {
+		if ph, ok := in.(*ssa.Phi); ok && stored != nil && derivesFrom(stored, ph, 0) {
 			maxreg = ph
 		}
 	}
@@ -237,4 +245,28 @@ func loopHeaderOf(g *PCFG, b *ssa.BasicBlock) *ssa.BasicBlock {
 		return b
 	}
 	return best.Header
+}
+
+// derivesFrom: v is computed from ph through conversions, additions of constants and phis.
+func derivesFrom(v ssa.Value, ph *ssa.Phi, d int) bool {
+	v = stripConv(v)
+	if v == ssa.Value(ph) {
+		return true
+	}
+	if d > 8 {
+		return false
+	}
+	switch x := v.(type) {
+	case *ssa.BinOp:
+		if x.Op == token.ADD || x.Op == token.SUB {
+			return derivesFrom(x.X, ph, d+1)
+		}
+	case *ssa.Phi:
+		for _, e := range x.Edges {
+			if e != v && derivesFrom(e, ph, d+1) {
+				return true
+			}
+		}
+	}
+	return false
 }
